@@ -28,7 +28,7 @@ EXPLANATION = (
     "interpreted on one n-ary node of 16, 32, 128 and 256 operands (five node families) and on a fixed formula in "
     "environments holding 0, 40 and 80 unrelated symbols; cost = interpreted steps + sizes handed to linear-time "
     "primitives (list membership, copies, sorting): the cost per further operand does not grow with the width and the "
-    "cost does not grow with the environment (R5).  On the real manager `t in manager` and the substitution of a tower for a symbol cost the same at nesting depth 4, 8 and 12 up to the number of nodes, without a call stack that grows with the nesting (part of R4).  SmtLibSolver.add_assertion / is_sat on a maximally shared tower: the cost follows the nodes, not the paths; a script read from text and one built in memory, written again in let-DAG form: cost and text length follow the nodes (R6).  Function interpretations - also ones whose body mentions another interpreted function - applied to nests f(f(...f(a))) of depth 8 / 16 / 32: cost linear in the nesting (R7).")
+    "cost does not grow with the environment (R5).  On the real manager `t in manager` and the substitution of a tower for a symbol cost the same at nesting depth 4, 8 and 12 up to the number of nodes, without a call stack that grows with the nesting (part of R4).  SmtLibSolver.add_assertion / is_sat on a maximally shared tower: the cost follows the nodes, not the paths; a script read from text and one built in memory, written again in let-DAG form: cost and text length follow the nodes (R6).  Function interpretations - also ones whose body mentions another interpreted function - applied to nests f(f(...f(a))) of depth 8 / 16 / 32: cost linear in the nesting (R7).  Seven services (prenex, nnf, simplify, substitute, size, get_logic, DAG printer) on a quantifier below a chain of 8 / 16 / 32 / 64 connectives: the cost per further connective does not grow; conjunctive_partition, propagate_toplevel, simplify and nnf on conjunctions that share their operands (depth 4 / 8 / 12): the cost follows the nodes, not the paths (R8).")
 NOT_DECIDED = ["constants of the linear bound", "the tree printers (not claimed by the property)"]
 
 # (class or module, function) -> reason.  Cycles entirely inside this set are accepted.
